@@ -7,6 +7,9 @@
   the leaves, for every cache bound, cache content and query (repaired `_rebuild_node`, or nothing missing, or every
   position listed as missing present).
 * T2 `search_sound` (no hypotheses), `findLoop_complete`, `search_complete_gen`, `search_complete` (need `MinPos`).
+  The pruning arithmetic `nodeOk_of_leafPasses` covers the three score types (Jaccard, containment,
+  max-containment: `denomOf`) and a query at the tree's scaled or coarser (`cut`: leaves scored downsampled,
+  `leafView`; `min_n_below` replaced by 1, `subjSize`).
 -/
 import SmVerif.Lemmas.SBTRebuild
 import SmVerif.Lemmas.SBTInsert
@@ -330,10 +333,10 @@ def visit (fixed keep : Bool) (t : Tree) (p : Nat) : Except Err (Option Tree) :=
         | .error e => .error e
       else .ok none
 
-/-- the node test of `find` -/
+/-- the node test of `find`, for the three score types (`denomOf`) and for a query coarser than the tree
+(`subjSize`: `min_n_below` is replaced by 1) -/
 def nodeOk (q : Query) (sizes : List Nat) (n : INode) (m : Nat) : Bool :=
-  if q.containment then passes q ((n.data sizes).matchCount q.mins) q.mins.length
-  else passes q ((n.data sizes).matchCount q.mins) m
+  passes q ((n.data sizes).matchCount q.mins) (denomOf q (subjSize q m) (subjSize q m))
 
 theorem findLoop_zero (fixed keep : Bool) (q : Query) (t : Tree) (visited queue : List Nat) (acc : List Leaf) :
     findLoop fixed keep q 0 t visited queue acc = (t, .error .fuel) := by
@@ -559,36 +562,73 @@ theorem interCount_le (a b : List Nat) : interCount a b ≤ a.length := List.len
 theorem interCount_nil (a : List Nat) : interCount a [] = 0 := by
   unfold interCount; simp
 
-/-- the arithmetic behind the pruning: a node that covers a passing leaf, with a positive size bound,
-passes the node test -/
+/-- the leaf as scored (downsampled to a coarser query's scaled, or as it is) is a sub-list of the stored leaf -/
+theorem mem_leafView {q : Query} {l : Leaf} {x : Nat} (h : x ∈ leafView q l) : x ∈ l.hashes := by
+  unfold leafView at h
+  split at h
+  · exact (List.mem_filter.mp h).1
+  · exact h
+
+theorem leafView_none {q : Query} (l : Leaf) (h : q.cut = none) : leafView q l = l.hashes := by
+  unfold leafView; rw [h]
+
+/-- a node that covers `l` answers 'present' for at least the query hashes that are in the scored view of `l` -/
+theorem matchCount_ge_view {sizes : List Nat} {n : INode} {l : Leaf} (hh : Holds sizes n l) (q : Query) :
+    interCount q.mins (leafView q l) ≤ (n.data sizes).matchCount q.mins := by
+  unfold interCount NG.matchCount
+  apply filter_length_mono
+  intro x _ hx
+  have hmem : x ∈ leafView q l := by simpa using hx
+  exact hh.1 x (mem_leafView hmem)
+
+/-- the size a node contributes is positive and at most the size of the scored view of a non-empty covered leaf:
+`min_n_below ≤ |l|` for a query at the tree's scaled, 1 for a coarser query -/
+theorem subjSize_le {q : Query} {l : Leaf} {m : Nat} (hle : m ≤ max 1 l.hashes.length) (hm0 : m ≠ 0)
+    (hv : 1 ≤ (leafView q l).length) : subjSize q m ≠ 0 ∧ subjSize q m ≤ (leafView q l).length := by
+  unfold subjSize
+  cases hc : q.cut with
+  | none =>
+    rw [leafView_none l hc] at hv ⊢
+    simp only [Option.isSome_none, Bool.false_eq_true, ↓reduceIte]
+    exact ⟨hm0, by omega⟩
+  | some mh =>
+    simp only [Option.isSome_some, ↓reduceIte]
+    exact ⟨by omega, hv⟩
+
+/-- the arithmetic behind the pruning, for every score type (Jaccard, containment, max-containment) and for a
+query at the tree's scaled or coarser: a node that covers a passing leaf, with a positive size bound, passes
+the node test -/
 theorem nodeOk_of_leafPasses {q : Query} {sizes : List Nat} {n : INode} {l : Leaf} {m : Nat}
     (hh : Holds sizes n l) (hm : n.minN = some m) (hm0 : m ≠ 0) (hp : leafPasses q l = true) :
     nodeOk q sizes n m = true := by
-  have h1 := matchCount_ge hh q.mins
-  have h2 := interCount_le q.mins l.hashes
+  have h1 := matchCount_ge_view hh q
+  have h2 := interCount_le q.mins (leafView q l)
   obtain ⟨_, m', hm', hle⟩ := hh
   rw [hm] at hm'; cases hm'
-  have hl1 : interCount q.mins l.hashes ≠ 0 → 1 ≤ l.hashes.length := by
+  have hv1 : interCount q.mins (leafView q l) ≠ 0 → 1 ≤ (leafView q l).length := by
     intro h0
-    cases hl : l.hashes with
+    cases hl : leafView q l with
     | nil => rw [hl, interCount_nil] at h0; exact absurd rfl h0
     | cons x xs => simp
+  have hsub := fun hv => subjSize_le (q := q) hle hm0 hv
   unfold leafPasses passes at hp
+  dsimp only at hp
   unfold nodeOk passes
-  generalize interCount q.mins l.hashes = S at *
+  generalize interCount q.mins (leafView q l) = S at *
   generalize (n.data sizes).matchCount q.mins = N at *
-  cases hcont : q.containment with
-  | true =>
-    simp only [hcont, ↓reduceIte, Bool.and_eq_true, ne_eq, decide_eq_true_eq, ge_iff_le] at hp ⊢
-    obtain ⟨⟨hq0, hs0⟩, hthr⟩ := hp
-    exact ⟨⟨hq0, by omega⟩, Nat.le_trans hthr (Nat.mul_le_mul_right 1000 h1)⟩
-  | false =>
-    simp only [hcont, Bool.false_eq_true, ↓reduceIte, Bool.and_eq_true, ne_eq, decide_eq_true_eq, ge_iff_le] at hp ⊢
-    obtain ⟨⟨ht0, hs0⟩, hthr⟩ := hp
-    have hl1' := hl1 hs0
-    have hmle : m ≤ q.mins.length + l.hashes.length - S := by omega
-    have := Nat.mul_le_mul_left q.thr hmle
-    exact ⟨⟨hm0, by omega⟩, by omega⟩
+  generalize (leafView q l).length = V at *
+  generalize subjSize q m = J at *
+  simp only [Bool.and_eq_true, ne_eq, decide_eq_true_eq, ge_iff_le] at hp ⊢
+  obtain ⟨⟨hd0, hs0⟩, hthr⟩ := hp
+  obtain ⟨hJ0, hJV⟩ := hsub (hv1 hs0)
+  have hden : denomOf q J J ≠ 0 ∧ denomOf q J J ≤ denomOf q V (q.mins.length + V - S) := by
+    unfold denomOf
+    unfold denomOf at hd0
+    cases q.maxc <;> cases q.containment <;>
+      simp only [Bool.false_eq_true, ↓reduceIte] at hd0 ⊢ <;> omega
+  have := Nat.mul_le_mul_left q.thr hden.2
+  have := Nat.mul_le_mul_right 1000 h1
+  exact ⟨⟨hden.1, by omega⟩, by omega⟩
 
 /-- `x` is `p` or one of its ancestors -/
 def OnPath (d x p : Nat) : Prop := x = p ∨ x ∈ ancestors d p
